@@ -149,6 +149,7 @@ def readDg (gid : Nat) : M DgV := do
 
 def stepOp (j : Json) : M Json := do
   let op ← reqM (getStr? j "op")
+  let T ← tables
   match op with
   | "arr" => do
     let v ← reqM ((getField? j "v").bind ArrV.fromJson?)
@@ -173,17 +174,17 @@ def stepOp (j : Json) : M Json := do
         if inplace then arrInplace bop aid r
         else do
           let l ← readArr aid
-          allocArr (← liftR (ArrV.binaryOp bop l r))
+          allocArr (← liftR (ArrV.binaryOp T bop l r))
       | .vec _, .inl r =>
         if inplace then vecInplace bop aid (.arr r)
         else do
           let l ← readVec aid
-          allocVec (← liftR (l.binaryOp bop (.arr r)))
+          allocVec (← liftR (l.binaryOp T bop (.arr r)))
       | .vec _, .inr w =>
         if inplace then vecInplace bop aid (.vec w)
         else do
           let l ← readVec aid
-          allocVec (← liftR (l.binaryOp bop (.vec w)))
+          allocVec (← liftR (l.binaryOp T bop (.vec w)))
       | _, _ => fail .badOp
     bindVar dst res
     pure okJson
@@ -191,8 +192,8 @@ def stepOp (j : Json) : M Json := do
     let uop ← reqM ((getStr? j "name").bind UnOp.fromString?)
     let aid ← getVar j "a"
     let res ← match ← getObj aid with
-      | .arr _ => do allocArr (← liftR ((← readArr aid).applyUn uop))
-      | .vec _ => do allocVec (← liftR ((← readVec aid).mapComps (·.applyUn uop)))
+      | .arr _ => do allocArr (← liftR ((← readArr aid).applyUn T uop))
+      | .vec _ => do allocVec (← liftR ((← readVec aid).mapComps (·.applyUn T uop)))
       | _ => fail .typeErr
     bindVar (← reqM (getNat? j "dst")) res
     pure okJson
@@ -200,8 +201,8 @@ def stepOp (j : Json) : M Json := do
     let k ← reqM (getInt? j "k")
     let aid ← getVar j "a"
     let res ← match ← getObj aid with
-      | .arr _ => do allocArr (← liftR ((← readArr aid).powInt k))
-      | .vec _ => do allocVec (← liftR ((← readVec aid).mapComps (·.powInt k)))
+      | .arr _ => do allocArr (← liftR ((← readArr aid).powInt T k))
+      | .vec _ => do allocVec (← liftR ((← readVec aid).mapComps (·.powInt T k)))
       | _ => fail .typeErr
     bindVar (← reqM (getNat? j "dst")) res
     pure okJson
@@ -212,8 +213,8 @@ def stepOp (j : Json) : M Json := do
     let k ← reqM ((getField? j "lhs").bind ArrV.fromJson?)
     let f (l : ArrV) : Res ArrV :=
       match name with
-      | "mul" => ArrV.binaryOp .mul l k
-      | "div" => do let q ← ArrV.binaryOp .div l k; q.applyUn .reciprocal
+      | "mul" => ArrV.binaryOp T .mul l k
+      | "div" => do let q ← ArrV.binaryOp T .div l k; q.applyUn T .reciprocal
       | _ => .error .badOp
     let res ← match ← getObj aid with
       | .arr _ => do allocArr (← liftR (f (← readArr aid)))
@@ -265,8 +266,9 @@ def stepOp (j : Json) : M Json := do
       else do
         -- `self.__class__(**{key: array ...})`: a new group holding the same objects
         let d ← newObj (.dg { entries := [], name := "" })
-        for e in g.entries do dgSet d e.1 e.2
-        bindVar dst d
+        match ← partialSeq (g.entries.map fun e => dgSet d e.1 e.2) with
+        | some e => return (errJson e)      -- renames done before the failure persist
+        | none => bindVar dst d
     | .ds d =>
       if deep then do
         let (nid, _) ← (deepCopy aid).run []
@@ -296,12 +298,12 @@ def stepOp (j : Json) : M Json := do
   | "dot" => do
     let v ← readVec (← getVar j "a")
     let w ← readVec (← getVar j "b")
-    bindVar (← reqM (getNat? j "dst")) (← allocArr (← liftR (v.dot w)))
+    bindVar (← reqM (getNat? j "dst")) (← allocArr (← liftR (v.dot T w)))
     pure okJson
   | "cross" => do
     let v ← readVec (← getVar j "a")
     let w ← readVec (← getVar j "b")
-    bindVar (← reqM (getNat? j "dst")) (← allocVec (← liftR (v.cross w)))
+    bindVar (← reqM (getNat? j "dst")) (← allocVec (← liftR (v.cross T w)))
     pure okJson
   /- ---------------- Datagroup ---------------- -/
   | "dg_new" => do
@@ -352,13 +354,7 @@ def stepOp (j : Json) : M Json := do
         pairs := dictSet pairs k vid
       | _ => fail .badOp
     -- partial effect: insertions before the failing one stay
-    let mut err : Option Err := none
-    for p in pairs do
-      if err.isNone then
-        let s ← get
-        match (dgSet gid p.1 p.2).run s with
-        | .ok (_, s') => set s'
-        | .error e => err := some e
+    let err ← partialSeq (pairs.map fun p => dgSet gid p.1 p.2)
     match err with
     | some e => pure (errJson e)
     | none => pure okJson
@@ -394,27 +390,20 @@ def stepOp (j : Json) : M Json := do
             pure ((argsort a.data).map fun (n : Nat) => (n : Int))
           | _ => fail .typeErr
       | none => reqM (getInts? j "perm")
-    let mut err : Option Err := none
-    for e in g.entries do
-      if err.isNone then
-        let s ← get
-        let act : M Unit := do
+    let err ← partialSeq (g.entries.map fun e => do
           let cur ← getDgO gid
           match dictGet? cur.entries e.1 with
           | none => fail .keyErr
           | some id => do
             let m ← memberGet id (.fancy perm)
-            dgSet gid e.1 m
-        match act.run s with
-        | .ok (_, s') => set s'
-        | .error e => err := some e
+            dgSet gid e.1 m)
     match err with
     | some e => pure (errJson e)
     | none => pure okJson
   | "dg_eq" => do
     let a ← readDg (← getVar j "a")
     let b ← readDg (← getVar j "b")
-    let r ← liftR (DgV.eq a b)
+    let r ← liftR (DgV.eq T a b)
     pure (Json.bool r)
   | "dg_keys" => do
     let g ← getDgO (← getVar j "g")
@@ -480,15 +469,13 @@ def stepOp (j : Json) : M Json := do
         let vid ← lookupVar (← reqM (jsonToNat? v))
         pairs := dictSet pairs k vid
       | _ => fail .badOp
-    let mut err : Option Err := none
-    for p in pairs do
-      if err.isNone then
+    let err ← partialSeq (pairs.map fun p => do
         match ← getObj p.2 with
         | .dg _ => do
           let d ← getDsO did
           setObj did (.ds { d with groups := dictSet d.groups p.1 p.2 })
           renameObj p.2 p.1
-        | _ => err := some .typeErr
+        | _ => fail .typeErr)
     match err with
     | some e => pure (errJson e)
     | none => pure okJson
@@ -528,9 +515,9 @@ def step (s : Store) (j : Json) : Store × Json :=
   | .ok (out, s') => (s', out)
   | .error e => (s, errJson e)
 
-def runProg (ops : List Json) : List Json :=
+def runProg (T : Tables) (ops : List Json) : List Json :=
   (ops.foldl (fun (acc : Store × List Json) op =>
       let (s', out) := step acc.1 op
-      (s', out :: acc.2)) (({} : Store), [])).2.reverse
+      (s', out :: acc.2)) (({ cfg := T } : Store), [])).2.reverse
 
 end Osyris
